@@ -154,7 +154,8 @@ def update_attack_surface_add_nodes(
         attacker.name,
         attacker.id)
     attack_surface = current_attack_surface
-    for attack_step in nodes:
+    # (a snapshot: the caller may pass the surface itself as the new nodes)
+    for attack_step in list(nodes):
         logger.debug(
             'Determine attack surface stemming from "%s"(%d) '
             'for Attacker "%s"(%d).',
